@@ -1,7 +1,7 @@
 (* C16 - WorkerPool conserves tasks and always shuts down. Statements only.
    Model: Verif.C16_Pool.Model (interleaving system; `pinned` = code as pinned, `repaired` = code after the fix: commits). *)
 From Coq Require Import List ZArith Bool Permutation.
-From Verif.C16_Pool Require Import Model Inv Proofs Runs Refute Live Term Group GroupProofs.
+From Verif.C16_Pool Require Import Model Inv Proofs Runs Refute Live Term Measure Group GroupProofs.
 Import ListNotations.
 
 (* Every variant (pinned and repaired), every worker count >= 1, cancel on/off, every task program (nested submits), every
@@ -67,8 +67,30 @@ Example C16_shutdown_progress_nonvacuous :
   running s = false /\ all_dead s = false /\ disp s = DWaitZ /\ pending s = 1%Z /\ stuckb cT s = false.
 Proof. vm_compute. repeat split; reflexivity. Qed.
 
-(* PARTIAL (not proved): that every maximal run reaches that final state, i.e. absence of infinite runs after Shutdown under a
-   fair scheduler (a decreasing measure over the steps after `running` became false) - see notes/C16.md section 5. *)
+(* No livelock either: from every reachable state of the repaired model in which the pool is stopped and no Start call is
+   pending or in progress (`nostart`), every continuation - whatever the scheduler does, fair or not - takes at most `mu s`
+   steps (an explicit natural-number measure that every step of every thread strictly decreases), and when it can not be
+   extended the shutdown is complete: ShutdownComplete is open, the pending counter is zero, every operation has returned. *)
+Theorem C16_shutdown_completes : forall n cn p, 1 <= n -> forall scripts sch1, let c := repaired n cn p in
+  let s := run c sch1 (init c scripts) in
+  running s = false -> nostart s = true ->
+  forall sch2, let s2 := run c sch2 s in
+    steps_taken c sch2 s <= mu n cn p s /\
+    (stuckb c s2 = true ->
+       all_dead s2 = true /\ disp s2 = DDead /\ pending s2 = 0%Z /\ (forall i, inflight i s2 = 0) /\
+       forall e, In e (exts s2) -> epc_ e = EIdle /\ ops e = []).
+Proof. exact shutdown_completes. Qed.
+
+Example C16_shutdown_completes_nonvacuous :
+  let s := run cT (firstn 105 schT) (init cT scriptsT) in
+  running s = false /\ nostart s = true /\ all_dead s = false /\ mu 2 true [[1; 2]; []; []] s = 30 /\
+  steps_taken cT (skipn 105 schT) s = 17 /\ stuckb cT (run cT (skipn 105 schT) s) = true.
+Proof. vm_compute. repeat split; reflexivity. Qed.
+
+(* PARTIAL (what the model does not say): steps are atomic model steps - that each of them terminates in the code (mutex
+   fairness of the Go runtime, user tasks returning) is an assumption; with a Start pending the pool is restarted and tasks
+   that re-submit themselves may keep it busy forever, which is not a shutdown hang (only the absence of stuck states is
+   proved for that case). *)
 
 (* Group aggregation (runtime/workerpool/group.go; model Group.v): for EVERY history of NewGroup / CreateGroup / CreatePool
    (nested groups, replaced pools) and pool-counter changes (Update by any delta, Set to any value), in the resulting
@@ -145,6 +167,7 @@ Print Assumptions C16_no_run_after_complete.
 Print Assumptions C16_start_exclusive.
 Print Assumptions C16_shutdown_terminates.
 Print Assumptions C16_shutdown_progress.
+Print Assumptions C16_shutdown_completes.
 Print Assumptions C16_group.
 Print Assumptions C16_refuted_submit_race.
 Print Assumptions C16_refuted_lost_wakeup.
